@@ -26,7 +26,7 @@ deriving Repr, DecidableEq
 def Fs.step (fs : Fs) : FsEvent → Fs
   | .mkTmp k => { fs with tmp := fs.tmp ++ [k] }
   | .commit k => { fs with tmp := fs.tmp.filter (· ≠ k), committed := fs.committed ++ [k] }
-  | .delStart k => { fs with deleting := fs.deleting ++ [k] }
+  | .delStart k => { fs with deleting := if fs.deleting.contains k then fs.deleting else fs.deleting ++ [k] }
   | .delDone k => { fs with deleting := fs.deleting.filter (· ≠ k), committed := fs.committed.filter (· ≠ k) }
 
 def Fs.run (fs : Fs) (evs : List FsEvent) : Fs := evs.foldl Fs.step fs
@@ -37,12 +37,13 @@ def Fs.latest (fs : Fs) : Option Nat := fs.committed.getLast?
 /-- is this event allowed by the protocol in this directory state?
     mkTmp k   : k is newer than every committed step and has no temporary directory yet
     commit k  : a temporary directory of k exists and k is newer than every committed step
-    delStart j: j is committed, not yet being deleted, and **older than the latest committed step**
+    delStart j: j is committed and **older than the latest committed step** (a deletion interrupted by a crash is simply started again
+                after the resume, so j may already be half-deleted)
     delDone j : j is being deleted -/
 def okEvent (fs : Fs) : FsEvent → Bool
   | .mkTmp k => fs.committed.all (· < k) && !fs.tmp.contains k
   | .commit k => fs.tmp.contains k && fs.committed.all (· < k)
-  | .delStart j => fs.committed.contains j && !fs.deleting.contains j && (match fs.latest with | some l => decide (j < l) | none => false)
+  | .delStart j => fs.committed.contains j && (match fs.latest with | some l => decide (j < l) | none => false)
   | .delDone j => fs.deleting.contains j
 
 /-- executable recogniser of protocol-conforming event sequences (used on the *observed* operation log of the real run) -/
